@@ -321,3 +321,63 @@ class TextBackendNew(Contract):
 
     def frame_ok(self, I, inp, obj, name):
         return isinstance(obj, ClassRef) and name == "explicit_not_exists_expression"
+
+
+# ----------------------------------------------------------------------------------------------- modifier type information
+@register
+class ModifierTypeHint(Contract):
+    """SigmaModifier._get_modify_type_hint: the accepted value type of a modifier is the annotation of ITS class's modify(), whatever
+    modifiers were asked before - a parent class, a sibling, the class itself (cache hit), or none (history prefix). A class that derives
+    from a used modifier and overrides modify() must not see the parent's cached answer."""
+    id = "C15.SigmaModifier._get_modify_type_hint"
+    target = "sigma.modifiers:SigmaModifier._get_modify_type_hint"
+    props = ("C15", "C03")
+    cases = ("fresh", "parent before", "sibling before", "self before", "parent, sibling and self before", "child before")
+    assumed = ["typing.get_type_hints(self.modify) is abstract: a function of the class of self (every class may override modify(); the built-in classes are stand-ins for any derived modifier)"]
+    KIDS = {"me": "SigmaLessThanModifier", "parent": "SigmaCompareModifier", "sibling": "SigmaGreaterThanModifier", "child": "SigmaLessThanModifier"}
+
+    def setup(self, E):
+        self.hints, self.asked = {}, []
+
+        def gth(I, a, k):
+            bm = I.force(a[0])
+            cls = bm.self_obj.cls
+            self.asked.append(cls.qualname)
+            if cls.qualname not in self.hints:
+                self.hints[cls.qualname] = SObj("TypeHint", {"of": cls.qualname})
+            return {"val": self.hints[cls.qualname], "return": SObj("TypeHint", {"of": "return"})}
+        E.externals["typing.get_type_hints"] = gth
+
+    def mk(self, I, name):
+        return SObj(I.E.index.lookup("sigma.modifiers:" + name), {}, lazy=True)
+
+    def args(self, I, case):
+        self.hints.clear()
+        del self.asked[:]
+        me = self.mk(I, "SigmaCompareModifier" if case == "child before" else "SigmaLessThanModifier")
+        return {"self": me, "args": [], "case": case}
+
+    def before(self, I, inp):
+        case, fn = inp["case"], I.E.index.lookup(self.target)
+        prefix = {"fresh": [], "parent before": ["SigmaCompareModifier"], "sibling before": ["SigmaGreaterThanModifier"], "self before": ["SigmaLessThanModifier"],
+                  "parent, sibling and self before": ["SigmaCompareModifier", "SigmaGreaterThanModifier", "SigmaLessThanModifier", "SigmaValueModifier"], "child before": ["SigmaLessThanModifier"]}[case]
+        for n in prefix:
+            I.call_function(fn, self.mk(I, n), [], {})
+
+    def post(self, I, inp, r):
+        own = inp["self"].cls.qualname
+        I.ctx.require(isinstance(r, SObj) and r.cls == "TypeHint" and r.fields["of"] == own, f"the hint is the one of the modifier's own class {own.split('.')[-1]} (got the one of {r.fields.get('of') if isinstance(r, SObj) else r!r})")
+
+    def frame_ok(self, I, inp, obj, name):
+        return True          # a cache may be written anywhere; what is decided is that the answer does not depend on it
+
+    def replay(self, values):
+        from sigma.modifiers import SigmaStartswithModifier, SigmaModifier
+        from sigma.types import SigmaString, SigmaNumber
+
+        class Loose(SigmaStartswithModifier):
+            def modify(self, val: SigmaString | SigmaNumber) -> SigmaString:
+                return SigmaString(str(val))
+        SigmaStartswithModifier(None, [])._get_modify_type_hint()
+        th = Loose(None, [])._get_modify_type_hint()
+        return None if th == (SigmaString | SigmaNumber) else f"after the parent modifier was used, a derived modifier with modify(val: SigmaString | SigmaNumber) reports the accepted type {th}"
